@@ -12,6 +12,12 @@ CHECKS = {
         "Trusts the reference interpreter (refmodel/interp.rs) as the reading of the manual; programs it marks undefined are skipped and counted; diverging programs are compared on a prefix.",
         "DESIGN.md §3 C01",
     ),
+    "C03": (
+        "exhaustive enumeration of all short strings / token sequences / single-token corpus mutants / length-limit shapes entered into the real interpreter under a watchdog and subprocess isolation, plus explicit-state search of the UI calling protocol (enter, execute quanta, interrupt, listing snapshots, loads) with a full-state digest",
+        "Every input of the stated bounded families is entered as a direct line, a stored line and a stored line followed by RUN; every history of the protocol machine up to depth 6 (quick) / 8 (thorough) is executed. On each: no panic or abort, every call returns (20 s watchdog, hangs and crashes attributed to one case by the parent process), and after at most one interrupt the interpreter is stopped and PRINT 1 works. Exhaustive within the bounds.",
+        "Built with debug assertions and overflow checks on (a violated debug_assert counts as a panic). Inputs longer than the enumerated lengths are covered only by the periodic length-limit shapes. The terminal front end itself is not executed.",
+        "DESIGN.md §3 C03",
+    ),
     "C04": (
         "explicit-state breadth-first search over edit histories on the real Runtime (states deduplicated by a full-state digest, plus an undeduplicated cross-check), each RUN / resume transition compared with a fresh interpreter fed get_listing()",
         "All histories up to depth 4 (quick) / 5 (thorough) over 47 editing, running and resuming actions, from the empty interpreter and from a program stopped inside a subroutine, are executed; on every RUN/RUN n, and on CONT/RETURN/NEXT/FN call right after an edit, the transcript must equal that of a freshly started interpreter holding the current listing; non-editing direct statements must leave the listing unchanged. Exhaustive within the depth bound.",
